@@ -223,6 +223,24 @@ class Check:
                     sample=f"{key}: {count} site(s) (floor {minimum})")
 
 
+def fold(chk: Check, sub: Check, rename, keep=lambda rule: True):
+    """Claim obligations decided for another property under this property's rule names (shared necessary conditions)."""
+    for rule, r in sub.rules.items():
+        if not keep(rule):
+            continue
+        tgt = chk.rules.setdefault(rename(rule), {"what": r.get("what", ""), "obligations": 0, "discharged": 0})
+        tgt["obligations"] += r["obligations"]
+        tgt["discharged"] += r["discharged"]
+        chk.obligations += r["obligations"]
+        chk.discharged += r["discharged"]
+    for v in sub.violations:
+        if keep(v.rule):
+            chk.violations.append(Violation(rename(v.rule), v.key, v.where, v.message, v.details))
+    for sm in sub.samples:
+        if keep(sm.get("rule", "")) and sum(1 for x in chk.samples if x.get("rule") == rename(sm["rule"])) < 2:
+            chk.samples.append(dict(sm, rule=rename(sm["rule"])))
+
+
 def load_known():
     p = os.path.join(VERIF, "known_findings.json")
     if not os.path.exists(p):
